@@ -1,2 +1,54 @@
-(* C03 — mapping groups are pairwise disjoint.  Statements only (being extended). *)
-From Morph Require Import Base.UStr.
+(* C03 — mapping groups are pairwise disjoint.  Statements only.
+   Chain: (i) the scans of the partitioner (as modelled in Model/Partition.v) separate only keys that are prefix-incomparable
+   (head-prefix scan) or different (equality scan) -- for ALL rule tables; (ii) term maps whose constant parts are
+   incomparable / different / of different kinds prescribe different terms for ALL rows (Model/Spec.v, escape-free
+   templates); (iii) distinct well-formed statements print to distinct lines (C05 print_injective).  The implementation's
+   own partition is checked against the criterion `separable` on every run (harness/props/c03.py). *)
+From Coq Require Import Sorted.
+From Morph Require Import Base.UStr Model.Terms Model.Data Model.Engine Model.Mapping Model.Partition Model.Spec
+  Proofs.UStrP Proofs.ScanP Proofs.SeparableP Proofs.EscP.
+Local Open Scope N_scope.
+
+(* (i) head-prefix scan over a sorted list: two non-blank-node entries in different groups have prefix-incomparable keys *)
+Theorem prefix_scan_separates_incomparable : forall l, StronglySorted le (map snd l) ->
+  forall i j ki kj li lj, (i < j)%nat ->
+    nth_error (unflagged l) i = Some ki -> nth_error (unflagged l) j = Some kj ->
+    nth_error (unflagged_labels l (scan_prefix 0 None l)) i = Some li ->
+    nth_error (unflagged_labels l (scan_prefix 0 None l)) j = Some lj ->
+    li <> lj -> incomp ki kj.
+Proof. exact prefix_scan_safe. Qed.
+Print Assumptions prefix_scan_separates_incomparable.
+(* blank nodes go to group 0, everything else to a group >= 1 *)
+Theorem blank_nodes_apart : forall l g h i fk lab, nth_error l i = Some fk -> nth_error (scan_prefix g h l) i = Some lab ->
+  if fst fk then lab = O else (g <= lab)%nat /\ (h = None -> g < lab)%nat.
+Proof. exact scan_prefix_flagged. Qed.
+Print Assumptions blank_nodes_apart.
+(* equality scan (all maps constant): equal keys are never separated *)
+Theorem equality_scan_separates_different : forall l g h i j ki kj li lj, StronglySorted le l -> (i < j)%nat ->
+  nth_error l i = Some ki -> nth_error l j = Some kj ->
+  nth_error (scan_eq g h l) i = Some li -> nth_error (scan_eq g h l) j = Some lj -> ki = kj -> li = lj.
+Proof. exact scan_eq_same. Qed.
+Print Assumptions equality_scan_separates_different.
+(* the list the model sorts is sorted (insertion sort by Python string order) *)
+Theorem partitioner_input_sorted : forall (A : Type) (key : A -> ustr) (flag : A -> bool) ks,
+  StronglySorted le (map snd (map (fun k => (flag k, key k)) (isort (kle key) ks))).
+Proof. exact @scan_input_sorted. Qed.
+Print Assumptions partitioner_input_sorted.
+
+(* (ii) for ALL rows of ALL data: incomparable constant parts give different terms *)
+Theorem incomparable_invariants_never_collide : forall cfg k1 v1 k2 v2 tt dt1 dt2 r1 r2 x1 x2,
+  (k1 = KConst \/ k1 = KTempl) -> (k2 = KConst \/ k2 = KTempl) -> escape_free v1 = true -> escape_free v2 = true ->
+  tt <> TLit -> incomparable (inv_of k1 v1) (inv_of k2 v2) = true ->
+  spec_lex cfg k1 v1 tt dt1 r1 = Some x1 -> spec_lex cfg k2 v2 tt dt2 r2 = Some x2 ->
+  render tt x1 <> render tt x2.
+Proof. exact incomparable_terms_differ. Qed.
+Print Assumptions incomparable_invariants_never_collide.
+Theorem different_constants_never_collide : forall tt v1 v2, v1 <> v2 -> tt <> TLit -> render tt v1 <> render tt v2.
+Proof. exact different_constants_differ. Qed.
+Print Assumptions different_constants_never_collide.
+Theorem blank_node_never_equals_iri_or_literal : forall tt x1 x2, tt = TIri \/ tt = TLit -> render TBnode x1 <> render tt x2.
+Proof. exact bnode_vs_other. Qed.
+Print Assumptions blank_node_never_equals_iri_or_literal.
+Theorem literal_types_never_collide : forall a b s1 s2, s1 <> s2 -> render TLit a ++ s1 <> render TLit b ++ s2.
+Proof. exact literal_suffix_differ. Qed.
+Print Assumptions literal_types_never_collide.
